@@ -7,11 +7,16 @@ from .c01 import merge_stats
 RULE = ('(1) random Source-headed stacks: node hashes of 8 names after neutral rewrites (rebuild from the same definitions, a '
         'cache layer or an inherit-only Transform inserted at a random position, nesting a prefix into an inner chain) and the '
         'digest/signature of pickled compiled functions must equal the base; (2) Silent: another value of a Silent constructor '
-        'argument, also upstream of a Filter (static hash), changes no digest; (3) bracketings of shared layer objects (S-ALIAS, '
+        'argument, also upstream of a Filter (static hash), changes no digest; Silent bindings of explicit Function(...) fields; a second CacheToDisk layer on a storage with another digest algorithm inserted downstream leaves the first cache\'s entries findable; (3) bracketings of shared layer objects (S-ALIAS, '
         'see C09) agree on every node hash; (4) S-SEED: digests of all fields of 24 (quick) / 120 pipelines over stacks, Merge, '
         'Filter, keep/drop, GroupBy, Join computed in fresh interpreters with PYTHONHASHSEED 0, 1, 4242 equal the parent\'s. '
         'Hash transparency of Filter/CheckIds (other fields) and Merge (owner) is checked under C15/C14. '
         'distinct_nontrivial = rewrites + digests compared')
+
+
+def _explicit_shard(args):
+    from .. import suite_hash
+    return suite_hash.run_explicit_functions(*args)
 
 
 def run(tier, seed, res, lean):
@@ -23,6 +28,11 @@ def run(tier, seed, res, lean):
     sstats, sprobs = suite_neutral.run_seed_check(24 if tier == 'quick' else 120, seed + 1)
     aouts = pmap(suite_alias.run_shard, [(seed * 31337 + 77 + i, 10 if tier == 'quick' else 60) for i in range(8)])
     aprobs = [p for o in aouts for p in o[1] if 'hash' in p.get('msg', '')]
+    for i in range(4 if tier == 'quick' else 24):
+        problems += suite_neutral.run_two_storages(seed * 17 + i)
+    from .. import suite_hash
+    ef = pmap(_explicit_shard, [(seed * 619 + i + 3, 8 if tier == 'quick' else 60) for i in range(8)])
+    problems += [p for o in ef for p in o[1] if p.get('kind') == 'silent-changes-hash']
     for p in problems[:5]:
         res.violations.append(Violation('c07-neutral', p['msg'][:300], {'suite': 'S-NEUTRAL', **p}))
     for p in sprobs[:5]:
